@@ -53,7 +53,7 @@ class Violation(Exception):
 
 
 class PTable:
-    __slots__ = ("id", "m", "real", "session", "first_digest", "cq")
+    __slots__ = ("id", "m", "real", "session", "first_digest", "cq", "nrows")
 
     def __init__(self, id, m, real, session, cq=None):
         self.id = id
@@ -62,6 +62,14 @@ class PTable:
         self.cq = cq or {}  # rep -> pdt.Table (compile-only dialect replicas, C19)
         self.session = session
         self.first_digest = {}  # (rep, kind) -> digest at first observation (O10.2)
+        self.nrows = None  # rows of the last export (bounds the size of generated joins)
+
+
+ROW_CAP = 5000  # joins whose result could be larger are neither generated nor executed
+
+
+def join_too_big(l: "PTable", r: "PTable") -> bool:
+    return (l.nrows if l.nrows is not None else 12) * (r.nrows if r.nrows is not None else 12) > ROW_CAP
 
 
 def jdump(x) -> str:
